@@ -184,6 +184,9 @@ func (h *Hooks) Install() {
 		h.mu.Lock()
 		h.seq++
 		ev := HookEvent{Seq: h.seq, Point: point, Data: data, GID: goid()}
+		if len(point) > 5 && point[:5] == "lock." {
+			ev.KV = kv
+		}
 		h.buf = append(h.buf, ev)
 		h.mu.Unlock()
 		if h.Gate != nil {
@@ -194,6 +197,14 @@ func (h *Hooks) Install() {
 
 // Uninstall removes the process-wide hook.
 func (h *Hooks) Uninstall() { verifhook.Set(nil) }
+
+// Mark appends a pseudo event (harness-side step) to the ordered buffer.
+func (h *Hooks) Mark(point string, data map[string]any) {
+	h.mu.Lock()
+	h.seq++
+	h.buf = append(h.buf, HookEvent{Seq: h.seq, Point: point, Data: data, GID: goid()})
+	h.mu.Unlock()
+}
 
 // Drain returns and clears the buffered events.
 func (h *Hooks) Drain() []HookEvent {
